@@ -177,29 +177,61 @@ def generate_params():
 
 
 class Results:
+    """What the suites produced. Correspondence cases are compared with the model AS THEY ARRIVE (one
+    harness job at a time) and only counts, a bounded sample and the first disagreements are kept, so that
+    the thorough tier's millions of (sometimes 50 KB) lines never sit in memory together."""
+    KEEP = 3000
+
     def __init__(self):
-        self.cases = []      # (suite, input, real)
+        self.cases = []      # bounded sample of (suite, input, real) — for the interpreter re-check / samples
+        self.ncases = 0
+        self.distinct = {}   # 8-byte hash of (suite, input) -> outcome class
+        self.dis = []        # first disagreements
+        self.ndis = 0
         self.oracle = []     # dict
+        self.noracle = 0
         self.known = []      # (id, what)
         self.stats = {}
         self.samples = []
         self.crashed = []    # harness process failures
+        self.driver_error = None
 
     def add_output(self, suite, text):
+        batch = []
         for line in text.split("\n"):
             if not line: continue
             tag, _, rest = line.partition("\t")
             if tag == "C":
                 inp, _, real = rest.partition("\t")
-                self.cases.append((suite, inp, real))
+                batch.append((suite, inp, real))
             elif tag == "O":
-                d = json.loads(rest); d["suite"] = suite; self.oracle.append(d)
+                self.noracle += 1
+                if len(self.oracle) < 400:
+                    d = json.loads(rest); d["suite"] = suite; self.oracle.append(d)
             elif tag == "K":
                 i, _, what = rest.partition("\t"); self.known.append((i, what))
             elif tag == "S":
                 k, _, v = rest.partition("\t"); self.stats[suite + ":" + k] = self.stats.get(suite + ":" + k, 0) + int(v)
             elif tag == "X":
                 if len(self.samples) < 8: self.samples.append(json.loads(rest))
+        self._compare(batch)
+
+    def _compare(self, batch):
+        if not batch: return
+        self.ncases += len(batch)
+        for (suite, inp, real) in batch:
+            self.distinct[hashlib.blake2b((suite + "\0" + inp).encode(), digest_size=8).digest()] = real.split(" ")[0][:80]
+        if len(self.cases) < self.KEEP: self.cases += batch[: self.KEEP - len(self.cases)]
+        if not os.path.exists(DRIVER):
+            self.driver_error = "driver executable missing"; return
+        try:
+            outs = model_outputs([c[1] for c in batch])
+        except Exception as e:
+            self.driver_error = str(e); return
+        for (suite, inp, real), mod in zip(batch, outs):
+            if real != mod:
+                self.ndis += 1
+                if len(self.dis) < 60: self.dis.append({"suite": suite, "input": inp, "real": real, "model": mod})
 
 
 def run_suite(binary, suite, seed, n, extra=(), timeout=3000):
@@ -215,15 +247,16 @@ def run_suites(res, jobs):
     """jobs: list of (binary, suite, seed, n, extra). Run in parallel, collect."""
     with cf.ThreadPoolExecutor(max_workers=max(2, NPROC - 2)) as ex:
         futs = [ex.submit(run_suite, *j) for j in jobs]
-        for fu in futs:
+        for fu in cf.as_completed(futs):
             suite, rc, out, err = fu.result()
             res.add_output(suite, out)
+            del out
             if rc != 0:
                 res.crashed.append({"suite": suite, "rc": rc, "stderr": err})
 
 
 def split_jobs(binary, suite, seed, n, extra=(), parts=None):
-    parts = parts or min(NPROC - 2, max(1, n // 50))
+    parts = parts or max(min(NPROC - 2, max(1, n // 50)), -(-n // 4000))   # at most ~4000 cases per job: bounded memory
     per = max(1, n // parts)
     return [(binary, suite, seed * 1000 + i, per, extra) for i in range(parts)]
 
@@ -249,13 +282,9 @@ def model_outputs_interp(inputs):
 
 
 def compare(res):
-    inputs = [c[1] for c in res.cases]
-    outs = model_outputs(inputs)
-    dis = []
-    for (suite, inp, real), mod in zip(res.cases, outs):
-        if real != mod:
-            dis.append({"suite": suite, "input": inp, "real": real, "model": mod})
-    return dis, outs
+    """Disagreements found while the outputs streamed in (see Results._compare)."""
+    if res.driver_error: raise RuntimeError(res.driver_error)
+    return res.dis, None
 
 
 # ---------------------------------------------------------------- known findings
